@@ -146,24 +146,21 @@ theorem wf_densePass (d1 : Doc) (start : Nat) (hs : d1.objects.Sorted) (d' : Doc
   · rename_i pairs newId hp
     obtain ⟨hp1, hp2⟩ := densePairs_some _ _ _ _ _ hp
     simp only [List.nil_append] at hp1
-    split at h
-    · cases h
-    · rename_i hne
-      cases h
-      have hperm := sortBy_perm idLeE d1.objects.keys
-      have hn : (sortBy idLeE d1.objects.keys).Nodup := hperm.nodup_iff.mpr (Objects.sorted_nodup _ hs)
-      have hk : ∀ k, k ∈ sortBy idLeE d1.objects.keys ↔ (d1.objects.get k).isSome := by
-        intro k; rw [hperm.mem_iff]; exact Objects.mem_keys_iff _ _
-      constructor
-      · intro k hk'
-        simp only at hk'
-        rw [traverse_isSome] at hk'
-        rw [hp1] at hk'
-        obtain ⟨p, hpm, hpk⟩ := (dense_move_isSome d1.bookmarks d1.objects d1.bmTable _ start hn hk k).mp hk'
-        have := assign_lt _ start p hpm
-        simp only
-        rw [← hpk, hp2]; omega
-      · exact traverse_sorted _ _ _ (movePass_sorted _ _ _ _ hs)
+    cases h
+    have hperm := sortBy_perm idLeE d1.objects.keys
+    have hn : (sortBy idLeE d1.objects.keys).Nodup := hperm.nodup_iff.mpr (Objects.sorted_nodup _ hs)
+    have hk : ∀ k, k ∈ sortBy idLeE d1.objects.keys ↔ (d1.objects.get k).isSome := by
+      intro k; rw [hperm.mem_iff]; exact Objects.mem_keys_iff _ _
+    constructor
+    · intro k hk'
+      simp only at hk'
+      rw [traverse_isSome] at hk'
+      rw [hp1] at hk'
+      obtain ⟨p, hpm, hpk⟩ := (dense_move_isSome d1.bookmarks d1.objects d1.bmTable _ start hn hk k).mp hk'
+      have := assign_lt _ start p hpm
+      simp only
+      rw [← hpk, hp2]; omega
+    · exact traverse_sorted _ _ _ (movePass_sorted _ _ _ _ hs)
 
 theorem deleteObject_sorted (d : Doc) (id : ObjId) (h : d.objects.Sorted) : (deleteObject d id).1.objects.Sorted := by
   simp only [deleteObject]; exact Objects.sorted_remove _ _ (traverse_sorted _ _ _ h)
@@ -177,21 +174,15 @@ theorem wf_foldl_delete (ids : List ObjId) (d : Doc) (h : WF d) :
   | nil => exact h
   | cons x xs ih => simp only [List.foldl_cons]; exact ih _ (wf_deleteObject d x h)
 
-theorem decCounts_spec (fuel : Nat) (os : Objects) (r : Option ObjId) (os' : Objects)
-    (h : decCounts fuel os r = some os') : os'.keys = os.keys := by
-  induction fuel generalizing os r with
-  | zero =>
-    cases r with
-    | none => simp [decCounts] at h; rw [h]
-    | some id => simp [decCounts] at h
-  | succ n ih =>
-    cases r with
-    | none => simp [decCounts] at h; rw [h]
-    | some id =>
-      simp only [decCounts] at h
-      split at h
-      · rw [ih _ _ h, Objects.keys_set]
-      · simp at h; rw [h]
+theorem decCounts_spec (os : Objects) (seen : List ObjId) (r : Option ObjId) :
+    (decCounts os seen r).keys = os.keys := by
+  induction os, seen, r using decCounts.induct with
+  | case1 os seen => rw [decCounts_none]
+  | case2 os seen id hs => rw [decCounts_seen _ _ _ hs]
+  | case3 os seen id hs pt hg ih =>
+    rw [decCounts_dict _ _ _ pt (by simpa using hs) hg, ih, Objects.keys_set]
+  | case4 os seen id hs hne =>
+    rw [decCounts_other _ _ _ (by simpa using hs) (fun pt h => hne pt h)]
 
 theorem isSome_of_keys_eq (a b : Objects) (h : a.keys = b.keys) (k : ObjId) : (a.get k).isSome = (b.get k).isSome := by
   have h1 := Objects.mem_keys_iff a k
@@ -199,55 +190,47 @@ theorem isSome_of_keys_eq (a b : Objects) (h : a.keys = b.keys) (k : ObjId) : (a
   rw [h] at h1
   cases ha : (a.get k).isSome <;> cases hb : (b.get k).isSome <;> simp_all
 
-theorem wf_deletePage1 (pages : List ObjId) (a : Doc) (n : Nat) (hwa : WF a) (x : Doc)
-    (hx : deletePage1 pages a n = some x) : WF x ∧ x.maxId = a.maxId := by
-  unfold deletePage1 at hx
-  split at hx
-  · cases hx; exact ⟨hwa, rfl⟩
+theorem wf_deletePage1 (pages : List ObjId) (a : Doc) (n : Nat) (hwa : WF a) :
+    WF (deletePage1 pages a n) ∧ (deletePage1 pages a n).maxId = a.maxId := by
+  unfold deletePage1
+  split
+  · exact ⟨hwa, rfl⟩
   · rename_i pid _
     have hwd := wf_deleteObject a pid hwa
     have hm := deleteObject_maxId a pid
     cases hdo : deleteObject a pid with
     | mk d2 ro =>
-      rw [hdo] at hx hwd hm
+      rw [hdo] at hwd hm
       simp only at hm
       cases ro with
-      | none => simp at hx; subst hx; exact ⟨hwd, hm⟩
+      | none => exact ⟨hwd, hm⟩
       | some page =>
-        simp only [Option.map_eq_some_iff] at hx
-        obtain ⟨os, hdc, rfl⟩ := hx
-        have hkeys := decCounts_spec _ _ _ _ hdc
+        simp only
+        have hkeys := decCounts_spec d2.objects [] ((page.asDict.bind fun pd => Dict.get pd PARENT).bind Obj.asRef)
         refine ⟨⟨?_, ?_⟩, hm⟩
         · intro k hk; simp only at hk
           rw [isSome_of_keys_eq _ _ hkeys] at hk
           exact hwd.1 k hk
         · simp only; unfold Objects.Sorted; rw [hkeys]; exact hwd.2
 
-theorem wf_deletePages (d : Doc) (nums : List Nat) (h : WF d) (d' : Doc) (hs : deletePages d nums = some d') :
-    WF d' ∧ d'.maxId = d.maxId := by
-  unfold deletePages at hs
-  simp only at hs
-  generalize pageIter d.trailer d.objects = pages at hs
-  have key : ∀ (nums : List Nat) (acc : Option Doc) (d' : Doc),
-      (∀ x, acc = some x → WF x ∧ x.maxId = d.maxId) →
-      nums.foldl (fun (acc : Option Doc) n => acc.bind fun d => deletePage1 pages d n) acc = some d' →
-      WF d' ∧ d'.maxId = d.maxId := by
+theorem wf_deletePages (d : Doc) (nums : List Nat) (h : WF d) :
+    WF (deletePages d nums) ∧ (deletePages d nums).maxId = d.maxId := by
+  unfold deletePages
+  simp only
+  generalize pageIter d.trailer d.objects = pages
+  have key : ∀ (nums : List Nat) (acc : Doc), WF acc ∧ acc.maxId = d.maxId →
+      WF (nums.foldl (fun acc n => deletePage1 pages acc n) acc) ∧
+      (nums.foldl (fun acc n => deletePage1 pages acc n) acc).maxId = d.maxId := by
     intro nums
     induction nums with
-    | nil => intro acc d' hacc h; exact hacc d' h
+    | nil => intro acc hacc; exact hacc
     | cons n rest ih =>
-      intro acc d' hacc h
-      simp only [List.foldl_cons] at h
-      apply ih _ d' _ h
-      intro x hx
-      cases acc with
-      | none => simp at hx
-      | some a =>
-        obtain ⟨hwa, hma⟩ := hacc a rfl
-        simp only [Option.bind_some] at hx
-        obtain ⟨h1, h2⟩ := wf_deletePage1 pages a n hwa x hx
-        exact ⟨h1, by rw [h2, hma]⟩
-  exact key nums (some d) d' (by intro x hx; cases hx; exact ⟨h, rfl⟩) hs
+      intro acc hacc
+      simp only [List.foldl_cons]
+      apply ih
+      obtain ⟨h1, h2⟩ := wf_deletePage1 pages acc n hacc.1
+      exact ⟨h1, by rw [h2, hacc.2]⟩
+  exact key nums d ⟨h, rfl⟩
 
 theorem wf_addObject (d : Doc) (o : Obj) (h : WF d) : WF (addObject d o) := by
   refine ⟨?_, Objects.sorted_insert _ _ _ h.2⟩
